@@ -1287,13 +1287,13 @@ func (st *State) resolveCall(fr *Frame, c *ssa.CallCommon) (FuncV, []Value) {
 		if fn == nil {
 			panic(unsupported(fmt.Sprintf("no method %s on %s", c.Method.Name(), recv.T)))
 		}
-		return FuncV{Fn: fn}, append([]Value{recv.V}, args...)
+		return st.eng.redirect(FuncV{Fn: fn}), append([]Value{recv.V}, args...)
 	}
 	for _, a := range c.Args {
 		args = append(args, st.eval(fr, a))
 	}
 	fv := st.eval(fr, c.Value).(FuncV)
-	return fv, args
+	return st.eng.redirect(fv), args
 }
 
 func (st *State) execCall(th *Thread, fr *Frame, x ssa.Value, c *ssa.CallCommon, instr ssa.Instruction) stepStatus {
